@@ -440,6 +440,7 @@ def build_item(repo, ext, unit_path):
     else:
         scopes = []
     inserted = []
+    lost = []
     t8_fns = set()
     t8_spans = []
     if ext.contract_only and is_container:
@@ -505,7 +506,10 @@ def build_item(repo, ext, unit_path):
             for ctext, lines in ann.closures:
                 idx = text.find(ctext, bs, be)
                 if idx < 0 or text.find(ctext, idx + 1, be) >= 0:
-                    raise AnchorLost('closure text %r must occur exactly once in %s' % (ctext, ann.name))
+                    # the annotated closure is gone: verify without the annotation; a failure of this
+                    # function is then only believed with a concrete witness (driver.py)
+                    lost.append({'fn': ann.name or ext.anchor.split()[1], 'what': 'closure ' + ctext})
+                    continue
                 m = re.match(r'(move\s+)?\|[^|]*\|\s*', ctext)
                 if not m:
                     raise UnitError('closure text must start with |params|')
@@ -521,7 +525,8 @@ def build_item(repo, ext, unit_path):
                         mm = m
                         break
                 if mm is None:
-                    raise AnchorLost('proof marker %r not found in %s' % (rx, ann.name))
+                    lost.append({'fn': ann.name or ext.anchor.split()[1], 'what': 'proof hint at ' + rx})
+                    continue
                 first = lines[0][1].strip()
                 if not (first.startswith('proof {') or first.startswith('assert')):
                     raise UnitError('@proof may only insert ghost code')
@@ -588,6 +593,7 @@ def build_item(repo, ext, unit_path):
         'rules': sorted(set(rules + [i[0] for i in inserted] + (['T6'] if omitted else []))),
         'omitted_methods': omitted,
         'inserted': inserted,
+        'lost_annotations': lost,
         'dropped': drop_report,
         'functions': sorted(fn_spans.keys() - set(omitted)) if fn_spans else [],
         'props': ext.props,
